@@ -8,18 +8,164 @@ import (
 	"encoding/json"
 	"flag"
 	"fmt"
+	"io"
 	"os"
 	"path/filepath"
 	"strings"
 
 	"github.com/kelindar/column/commit"
+	"github.com/kelindar/iostream"
+	"github.com/klauspost/compress/s2"
 )
+
+// coqUpdate renders the part of a buffer that belongs to one block the way WireCommit.update lays it out
+func coqUpdate(b *commit.Buffer, chunk commit.Chunk) string {
+	_, _, raw, hdrs := b.VerifState()
+	var shards []string
+	var payload []byte
+	for h, hd := range hdrs {
+		if commit.Chunk(hd.Chunk) != chunk {
+			continue
+		}
+		end := len(raw)
+		if h+1 < len(hdrs) {
+			end = int(hdrs[h+1].Start)
+		}
+		shards = append(shards, fmt.Sprintf("(%d, %d)", hd.Value, len(payload)))
+		payload = append(payload, raw[hd.Start:end]...)
+	}
+	return fmt.Sprintf("(%s, ([%s], %s))", coqBytes([]byte(b.Column)), strings.Join(shards, "; "), coqBytes(payload))
+}
+
+func coqCommit(c commit.Commit) string {
+	var ups []string
+	for _, u := range c.Updates {
+		ups = append(ups, coqUpdate(u, c.Chunk))
+	}
+	return fmt.Sprintf("(%d, (%d, [%s]))", c.Chunk, c.ID, strings.Join(ups, "; "))
+}
+
+func coqWBuffer(b *commit.Buffer) string {
+	last, _, raw, hdrs := b.VerifState()
+	var hs []string
+	for _, h := range hdrs {
+		hs = append(hs, fmt.Sprintf("(%d, (%d, %d))", h.Chunk, h.Start, h.Value))
+	}
+	return fmt.Sprintf("(%s, (%d, ([%s], %s)))", coqBytes([]byte(b.Column)), uint32(last), strings.Join(hs, "; "), coqBytes(raw))
+}
+
+// stateCases: real snapshots (state stream + recorded commits) with the s2 layer removed, parsed by the
+// real readers, against coq/WireState.v (state_enc / state_dec / restore_bytes)
+func stateCases(seed uint64, n int, out string) (shards []string, cases, total int, failures, samples []string) {
+	stats := newStats()
+	var cs []string
+	for i := 0; i < n; i++ {
+		w := newWorld(seed+7777, i, persistProfile, stats, false)
+		for t := 0; t < 2+w.rng.Intn(5); t++ {
+			w.runTxn()
+		}
+		ids := w.coll.VerifCommits()
+		file, stateLen, _, err := w.snapshotWithTail(w.rng.Intn(3))
+		w.close()
+		if err != nil || stateLen > len(file) {
+			failures = append(failures, fmt.Sprintf("state case %d: snapshot failed: %v", i, err))
+			continue
+		}
+		sbytes, err1 := io.ReadAll(s2.NewReader(bytes.NewReader(file[:stateLen])))
+		lbytes, err2 := io.ReadAll(s2.NewReader(bytes.NewReader(file[stateLen:])))
+		if err1 != nil || err2 != nil {
+			failures = append(failures, fmt.Sprintf("state case %d: s2 decoding of a complete snapshot failed: %v %v", i, err1, err2))
+			continue
+		}
+		if len(sbytes)+len(lbytes) > 60000 {
+			continue
+		}
+		// parse the state with the real readers
+		r := iostream.NewReader(bytes.NewReader(sbytes))
+		version, e0 := r.ReadUvarint()
+		cols, e1 := r.ReadUvarint()
+		nchunks, e2 := r.ReadUvarint()
+		if e0 != nil || e1 != nil || e2 != nil || version != 1 {
+			failures = append(failures, fmt.Sprintf("state case %d: header unreadable (version %d)", i, version))
+			continue
+		}
+		var chunks []string
+		bad := false
+		for c := uint64(0); c < nchunks && !bad; c++ {
+			id, e := r.ReadUvarint()
+			if e != nil {
+				bad = true
+				break
+			}
+			if int(c) < len(ids) && ids[c] != id {
+				failures = append(failures, fmt.Sprintf("state case %d: block %d stores commit id %d, the collection held %d when the snapshot began", i, c, id, ids[c]))
+			}
+			var bufs []string
+			for k := uint64(0); k < cols; k++ {
+				b := commit.NewBuffer(8)
+				if _, e := b.ReadFrom(r); e != nil {
+					bad = true
+					break
+				}
+				bufs = append(bufs, coqWBuffer(b))
+			}
+			chunks = append(chunks, fmt.Sprintf("(%d, [%s])", id, strings.Join(bufs, "; ")))
+		}
+		if rest, _ := io.ReadAll(r); bad || len(rest) != 0 {
+			failures = append(failures, fmt.Sprintf("state case %d: the real readers do not consume the state stream exactly (bad=%v, %d bytes left)", i, bad, len(rest)))
+			continue
+		}
+		// the recorded commits
+		var commits []string
+		lr := bytes.NewReader(lbytes)
+		for lr.Len() > 0 {
+			var c commit.Commit
+			if _, e := c.ReadFrom(lr); e != nil {
+				bad = true
+				break
+			}
+			commits = append(commits, coqCommit(c))
+		}
+		if bad {
+			failures = append(failures, fmt.Sprintf("state case %d: the recorded commits are unreadable", i))
+			continue
+		}
+		tot := len(sbytes) + len(lbytes)
+		var cuts []string
+		for _, k := range []int{0, 1, 2, 3, len(sbytes) / 2, len(sbytes) - 1, len(sbytes), len(sbytes) + 1, len(sbytes) + len(lbytes)/2, tot - 1, tot,
+			w.rng.Intn(tot + 1), w.rng.Intn(tot + 1), w.rng.Intn(len(sbytes) + 1), len(sbytes) + w.rng.Intn(len(lbytes)+1)} {
+			if k >= 0 && k <= tot {
+				cuts = append(cuts, fmt.Sprintf("%d%%nat", k))
+			}
+		}
+		total += tot
+		txt := fmt.Sprintf("((%d, [%s]), [%s], %s, %s, [%s])", cols, strings.Join(chunks, "; "), strings.Join(commits, "; "), coqBytes(sbytes), coqBytes(lbytes), strings.Join(cuts, "; "))
+		cs = append(cs, txt)
+		if len(samples) < 1 {
+			samples = append(samples, fmt.Sprintf("snapshot %d: %d buffers per block, %d blocks, %d recorded commits, state %d bytes, log %d bytes", i, cols, nchunks, len(commits), len(sbytes), len(lbytes)))
+		}
+	}
+	per := 8
+	for i := 0; i < len(cs); i += per {
+		j := i + per
+		if j > len(cs) {
+			j = len(cs)
+		}
+		name := filepath.Join(out, fmt.Sprintf("state_%05d.v", i))
+		txt := "From Coq Require Import NArith List.\nFrom ColumnV Require Import Wire WireCommit WireState.\nImport ListNotations.\nLocal Open Scope N_scope.\n" +
+			fmt.Sprintf("Definition M := Eval vm_compute in state_mismatches %d [\n %s].\nPrint M.\n", 200000+i, strings.Join(cs[i:j], ";\n "))
+		os.WriteFile(name, []byte(txt), 0o644)
+		shards = append(shards, name)
+	}
+	return shards, len(cs), total, failures, samples
+}
 
 func cmdWire(args []string) {
 	fs := flag.NewFlagSet("wire", flag.ExitOnError)
 	seed := fs.Uint64("seed", 1, "seed")
 	n := fs.Int("n", 120, "commits")
 	out := fs.String("out", "", "output directory")
+	states := fs.Int("states", 0, "snapshots compared with WireState.v")
 	fs.Parse(args)
 	os.MkdirAll(*out, 0o755)
 	rng := NewRng(*seed)
@@ -31,6 +177,9 @@ func cmdWire(args []string) {
 		Samples []string `json:"samples"`
 		Bytes   int      `json:"bytes"`
 		Buffers int      `json:"buffers"`
+		States  int      `json:"states"`
+		StateBytes int   `json:"state_bytes"`
+		Failures []string `json:"failures"`
 	}
 	s := sum{Engine: "wire"}
 	var cases []string
@@ -144,6 +293,12 @@ func cmdWire(args []string) {
 	}
 	s.Buffers = len(bcases)
 	s.Cases = len(cases)
+	if *states > 0 {
+		sh, nst, tot, fails, smp := stateCases(*seed, *states, *out)
+		s.Shards = append(s.Shards, sh...)
+		s.States, s.StateBytes, s.Failures = nst, tot, fails
+		s.Samples = append(s.Samples, smp...)
+	}
 	b, _ := json.MarshalIndent(s, "", " ")
 	os.WriteFile(filepath.Join(*out, "summary.json"), b, 0o644)
 }
